@@ -37,3 +37,48 @@ Example c01_witness :
   | _ => False
   end.
 Proof. vm_compute. repeat split; reflexivity. Qed.
+
+(* ---- the dispatch loop is part of the composition -----------------------------------------------------
+   c01_expr_eval uses Model/ExprEval.v binop_of_code for "the Value method the VM executes for a binary
+   opcode".  That table is not an assumption: for every opcode in it, the dispatch case REGENERATED from the
+   exec switch of /repo/do.go on every run (Gen/Steps_gen.v step_gen) pops the right operand b and the left
+   operand a, applies exactly that method to (a, b) and pushes the result -- for every instruction, operand
+   stack, frame and VM state.  The second theorem is the same for all sixteen two-operand opcodes incl. the
+   comparisons (GT and GTE are LT and LTE with the operands swapped).  A change of one of these cases in
+   do.go (say, computing a <= b as !(b < a), which differs on NaN) breaks these obligations. *)
+From GV Require Import Model.VM Gen.Steps_gen Proofs.C04_vm.
+Lemma c01_disp_res : forall name g, In (name, false, BRes g) vm_binops ->
+  forall i slots a b rest s, icode i = C name ->
+  step_gen i slots (b :: a :: rest) s = Some (slift (g a b) s (fun r => SNext slots (r :: rest) s)).
+Proof. intros name g Hin i slots a b rest s Hc. rewrite (vm_binop_step name false (BRes g) Hin i slots a b rest s Hc). reflexivity. Qed.
+Lemma c01_disp_plain : forall name g, In (name, false, BPlain g) vm_binops ->
+  forall i slots a b rest s, icode i = C name ->
+  step_gen i slots (b :: a :: rest) s = Some (slift (Ok (g a b)) s (fun r => SNext slots (r :: rest) s)).
+Proof. intros name g Hin i slots a b rest s Hc. rewrite (vm_binop_step name false (BPlain g) Hin i slots a b rest s Hc). reflexivity. Qed.
+
+Theorem c01_dispatch_from_source : forall code f, binop_of_code code = Some f ->
+  forall i slots a b rest s, icode i = C code ->
+  step_gen i slots (b :: a :: rest) s = Some (slift (f a b) s (fun r => SNext slots (r :: rest) s)).
+Proof.
+  intros code f H i slots a b rest s Hc. unfold binop_of_code in H.
+  Ltac c01_case H Hc :=
+    match type of H with
+    | (if String.eqb ?code ?n then _ else _) = _ =>
+        let E := fresh "E" in destruct (String.eqb code n) eqn:E;
+        [ apply String.eqb_eq in E; subst code; injection H as H; subst;
+          cbv beta;
+          first [ eapply c01_disp_res; [ | exact Hc]; cbn [vm_binops In]; tauto
+                | eapply c01_disp_plain; [ | exact Hc]; cbn [vm_binops In]; tauto ]
+        | ]
+    end.
+  c01_case H Hc. c01_case H Hc. c01_case H Hc. c01_case H Hc. c01_case H Hc.
+  c01_case H Hc. c01_case H Hc. c01_case H Hc. c01_case H Hc. c01_case H Hc.
+  discriminate.
+Qed.
+Print Assumptions c01_dispatch_from_source.
+
+Theorem c01_vm_binop_from_source : forall name sw f, In (name, sw, f) vm_binops ->
+  forall i slots a b rest s, icode i = C name ->
+  step_gen i slots (b :: a :: rest) s = Some (binop_result sw f slots a b rest s).
+Proof. exact vm_binop_step. Qed.
+Print Assumptions c01_vm_binop_from_source.
